@@ -87,6 +87,22 @@ func c16Recipe(seed int64) *poolRecipe {
 		return geojson.NewLineString(geometry.NewLine(b1200[:260], &geometry.IndexOptions{Kind: geometry.RTree, MinPoints: 1}))
 	})
 	add("Polygon-moved", func() geojson.Object { return geojson.NewPolygon(geometry.NewPoly(b70, nil, nil).Move(3, -2)) })
+	// a polygon with 12 holes
+	{
+		ext := []geometry.Point{{X: -20, Y: -20}, {X: 20, Y: -20}, {X: 20, Y: 20}, {X: -20, Y: 20}, {X: -20, Y: -20}}
+		var holes [][]geometry.Point
+		for h := 0; h < 12; h++ {
+			x, y := float64(-18+6*(h%6)), float64(-12+16*(h/6))
+			holes = append(holes, []geometry.Point{{X: x, Y: y}, {X: x + 3, Y: y}, {X: x + 3, Y: y + 4}, {X: x, Y: y + 4}, {X: x, Y: y}})
+		}
+		add("Polygon-12-holes", func() geojson.Object { return geojson.NewPolygon(geometry.NewPoly(ext, holes, nil)) })
+		add("Rect-over-hole-5", func() geojson.Object {
+			return geojson.NewRect(geometry.Rect{Min: geometry.Point{X: 11, Y: -13}, Max: geometry.Point{X: 16, Y: -7}})
+		})
+		add("Polygon-in-material", func() geojson.Object {
+			return geojson.NewPolygon(geometry.NewPoly([]geometry.Point{{X: -19.5, Y: -19}, {X: 19, Y: -19}, {X: 19, Y: -14}, {X: -19.5, Y: -14}, {X: -19.5, Y: -19}}, nil, nil))
+		})
+	}
 	var many []geometry.Point
 	for i := 0; i < 100; i++ {
 		many = append(many, geometry.Point{X: float64(i%10) - 5, Y: float64(i/10) - 5})
